@@ -18,7 +18,33 @@ RUNNER_STUBBED = [
     "goroutine scheduling of the instrumented files: seeded scheduler (one task runs between two hooks)",
 ]
 
+def runner_check(scn, rule, probes, assumptions, quick=25, thorough=900):
+    return {
+        "testpkg": RUNNER_PKG,
+        "instrument": RUNNER_INSTRUMENT,
+        "harness": [("connectconformance", "internal/app/connectconformance")],
+        "scenarios": [{"name": scn}],
+        "budget": {"quick": {"seconds": quick, "workers": 16}, "thorough": {"seconds": thorough, "workers": 16}},
+        "level": "exploration",
+        "rule": rule,
+        "expect_probes": probes,
+        "real": RUNNER_REAL,
+        "stubbed": RUNNER_STUBBED,
+        "assumptions": assumptions,
+    }
+
+
 CHECKS = {
+    "C11": runner_check(
+        "c11",
+        "each evaluation is one simulated execution of runTestCasesForServer with the real clientProcessRunner against a scripted server process and a scripted client process; batch size, TLS mode, reference flags, the server's fate (start error, exits before its request, response truncated at byte k / oversize / empty / garbage / never / without certificate, dies after k of n requests, stderr lines) and the client's fate (answer kinds and latencies, cut, garbage, unknown name, early exit, stops reading, missing answers), kill delays and every scheduling decision come from one tape. Distinct = hash of step log + harness events; non-trivial = a fault fired or a preemption happened.",
+        ["server:start-error", "server:server-exits-before-request", "server:response-truncated", "server:response-oversize", "server:response-empty",
+         "server:response-garbage", "server:response-never", "server:missing-cert", "server:server-dies-mid-batch", "client:exit-early", "client:never-answered",
+         "client:cut-at-byte", "client:stop-reading-stdin"],
+        ["scripted peers are killable within 0-5 s of their context being cancelled",
+         "'ends with exactly one outcome' is evaluated once the call has returned and the client has answered or dropped everything handed to it (the call returns early, without waiting for in-flight answers, when it notices that the server died)",
+         "instrumentation completeness checked at run time; invalidated runs are discarded and counted"]),
+
     "C10": {
         "testpkg": RUNNER_PKG,
         "instrument": RUNNER_INSTRUMENT,
